@@ -804,3 +804,149 @@ def rule_L3b(ctx, rid='L3'):
                    'add_samples without storing them: the blobs of that batch are lost and the '
                    'blob rows no longer line up with the points')
     return n
+
+
+# ---------------------------------------------------------------------------
+# G6: a record kept as a snapshot of another record is a copy, not a second name for it
+# ---------------------------------------------------------------------------
+
+_COPIES = {'np.copy', 'np.array', 'copy.copy', 'copy.deepcopy', 'deepcopy', 'list', 'np.append',
+           'np.concatenate', 'np.delete', 'np.insert'}
+_NO_COPY = {'np.asarray', 'np.asanyarray', 'np.atleast_1d', 'np.ravel', 'np.reshape',
+            'np.squeeze', 'np.transpose'}
+
+
+def _inplace_written(cls, attr):
+    """Sites of `cls` that modify attribute `attr` in place (element store, in-place operator
+    on an element, list mutators)."""
+    out = []
+    for m in cls.methods.values():
+        for n in walk_no_nested(m.node):
+            tg = []
+            if isinstance(n, ast.Assign):
+                tg = n.targets
+            elif isinstance(n, ast.AugAssign):
+                tg = [n.target]
+            for t in tg:
+                if isinstance(t, ast.Subscript):
+                    ra = root_attr(t, m.self_name)
+                    if ra and ra[0] == attr:
+                        out.append((m, n))
+            if isinstance(n, ast.Call) and isinstance(n.func, ast.Attribute) and n.func.attr in (
+                    'append', 'pop', 'extend', 'insert', 'remove', 'clear', 'sort', 'fill',
+                    'resize', 'put'):
+                ra = root_attr(n.func.value, m.self_name)
+                if ra and ra[0] == attr and not ra[1]:
+                    out.append((m, n))
+    return out
+
+
+def rule_G6(ctx, classes=('Sampler',), rid='G6'):
+    """`self.X = self.Y` (or a non-copying wrapper of it) makes X a second name for Y's storage:
+    every later element store into Y (`self.shell_n_sample[shell] += n`) shows through X.  A
+    record that is meant to FREEZE another one at some moment (shell_n_sample_exp: the proposal
+    counts when exploration ended) must be a copy."""
+    ctx.rule(rid, 'snapshot-not-alias: an attribute assigned from another attribute of the same '
+             'object that is modified in place anywhere in the class is assigned a copy')
+    n = 0
+    for cname in classes:
+        cls = ctx.program.cls(cname)
+        for m in cls.methods.values():
+            for st in walk_no_nested(m.node):
+                if not (isinstance(st, ast.Assign) and len(st.targets) == 1):
+                    continue
+                ta = root_attr(st.targets[0], m.self_name)
+                if not ta or ta[1]:
+                    continue
+                v = st.value
+                how = 'bare'
+                while isinstance(v, ast.Call):
+                    d = dotted(v.func) or ''
+                    if isinstance(v.func, ast.Attribute) and v.func.attr == 'copy' and \
+                            not v.args:
+                        how, v = 'copy', v.func.value
+                        break
+                    if d in _COPIES and v.args:
+                        how, v = 'copy', v.args[0]
+                        break
+                    if d in _NO_COPY and v.args:
+                        v = v.args[0]
+                        continue
+                    v = None
+                    break
+                if v is None:
+                    continue
+                sa = root_attr(v, m.self_name) if isinstance(v, ast.Attribute) else None
+                if not sa or sa[1] or sa[0] == ta[0]:
+                    continue
+                w = _inplace_written(cls, sa[0]) + _inplace_written(cls, ta[0])
+                if not w:
+                    continue
+                n += 1
+                ok = how == 'copy'
+                ctx.ob(rid, '%s:%s<-%s:snapshot-is-a-copy' % (m.qualname, ta[0], sa[0]), ok,
+                       m.where(st),
+                       '`%s` stores a copy' % unparse(st)[:60] if ok else
+                       '`%s` makes self.%s a second name for the storage of self.%s, which is '
+                       'modified in place (`%s` in %s): the frozen record follows every later '
+                       'update' % (unparse(st)[:60], ta[0], sa[0], unparse(w[0][1])[:40],
+                                   w[0][0].qualname))
+    return n
+
+
+def rule_T11(ctx, rid='T11'):
+    """The removal of unoccupied shells at the end of exploration runs whenever ANY shell is
+    empty: a guard around the removal loop is `np.any(<the loop's own selector>)` (or absent)."""
+    ctx.rule(rid, 'prune-guard: the loop that removes unoccupied shells is guarded by nothing '
+             'stronger than "some shell is unoccupied"')
+    f = ctx.program.func('Sampler.run')
+    par = {}
+    for p in ast.walk(f.node):
+        for c in ast.iter_child_nodes(p):
+            par[id(c)] = p
+    n = 0
+    for lp in walk_no_nested(f.node):
+        if not isinstance(lp, ast.For):
+            continue
+        sel = None
+        for c in ast.walk(lp.iter):
+            if isinstance(c, ast.Call) and (dotted(c.func) or '') in ('np.flatnonzero',
+                                                                      'np.where') and c.args:
+                sel = c.args[0]
+        pops = [c for c in ast.walk(lp) if isinstance(c, ast.Call) and
+                isinstance(c.func, ast.Attribute) and c.func.attr == 'pop' and
+                root_attr(c.func.value, f.self_name)]
+        if sel is None or not pops:
+            continue
+        p = par.get(id(lp))
+        guards = []
+        q = lp
+        while isinstance(p, ast.If) and q in p.body:
+            # only guards that mention the record the selector tests
+            names = {x.attr for x in ast.walk(sel) if isinstance(x, ast.Attribute)}
+            if any(isinstance(x, ast.Attribute) and x.attr in names for x in ast.walk(p.test)):
+                guards.append(p.test)
+            q, p = p, par.get(id(p))
+        n += 1
+        bad = None
+        for g in guards:
+            okg = isinstance(g, ast.Call) and (
+                (dotted(g.func) == 'np.any' and g.args and unparse(g.args[0]) == unparse(sel)) or
+                (isinstance(g.func, ast.Attribute) and g.func.attr == 'any' and
+                 unparse(g.func.value) == unparse(sel)))
+            if not okg:
+                ctx.require(isinstance(g, ast.Call) and (dotted(g.func) or '') in (
+                    'np.all', 'all') or isinstance(g, ast.Compare) or
+                    (isinstance(g, ast.Call) and isinstance(g.func, ast.Attribute) and
+                     g.func.attr == 'all'),
+                    'T11 not decided: guard `%s` of the shell-removal loop' % unparse(g)[:50])
+                bad = g
+        ctx.ob(rid, 'Sampler.run:prune-guard', bad is None, f.where(bad or lp),
+               'unoccupied shells are removed whenever `%s` holds for some shell' % unparse(sel)
+               if bad is None else
+               'the removal loop runs only under `%s`, which is stronger than `np.any(%s)`: an '
+               'unoccupied shell survives the end of exploration (a shell without a sample: NaN '
+               'statistics, and the sampling phase may never fill it)'
+               % (unparse(bad)[:50], unparse(sel)))
+    ctx.require(n >= 1, 'T11: removal loop of unoccupied shells not found in Sampler.run')
+    return n
